@@ -3,6 +3,7 @@ package props
 import (
 	"bytes"
 	"fmt"
+	"strings"
 	"testing"
 
 	appsv1 "k8s.io/api/apps/v1"
@@ -42,10 +43,14 @@ type C10Case struct {
 	XPods []XPod `json:"xpods,omitempty"`
 	XRevs []XRev `json:"xrevs,omitempty"`
 	Other bool   `json:"other_set,omitempty"` // a second set with the same selector exists
+	// the second set is itself reconciled (by the same controller) before the ops listed in OtherAt
+	OtherReplicas int   `json:"other_replicas,omitempty"`
+	OtherAt       []int `json:"other_at,omitempty"`
 }
 
 func (c C10Case) Summary() interface{} {
-	return map[string]interface{}{"world": summarizeWorld(c.W), "extra_pods": c.XPods, "extra_revs": c.XRevs, "second_set": c.Other}
+	return map[string]interface{}{"world": summarizeWorld(c.W), "extra_pods": c.XPods, "extra_revs": c.XRevs, "second_set": c.Other,
+		"second_set_replicas": c.OtherReplicas, "second_set_reconciled_before_ops": c.OtherAt}
 }
 
 func ownerRefKind(kind int, set *asv1.StatefulSet) []metav1.OwnerReference {
@@ -76,6 +81,13 @@ func genC10(rt *rapid.T) C10Case {
 	w[OpEditLimit] = 1
 	o.weights = w
 	c := C10Case{W: genWorld(rt, o), Other: rapid.Bool().Draw(rt, "otherSet")}
+	if c.Other && rapid.IntRange(0, 2).Draw(rt, "otherLive") != 0 {
+		c.OtherReplicas = rapid.IntRange(0, 3).Draw(rt, "otherReplicas")
+		n := rapid.IntRange(1, 4).Draw(rt, "otherN")
+		for i := 0; i < n; i++ {
+			c.OtherAt = append(c.OtherAt, rapid.IntRange(0, len(c.W.Ops)).Draw(rt, "otherAt"))
+		}
+	}
 	np := rapid.IntRange(0, 5).Draw(rt, "nxpods")
 	for i := 0; i < np; i++ {
 		c.XPods = append(c.XPods, XPod{
@@ -102,7 +114,7 @@ func genC10(rt *rapid.T) C10Case {
 func applyExtras(s *Sys, c C10Case) {
 	set := s.Set()
 	if c.Other {
-		o := baseSet(NS, "zz-other", 0)
+		o := baseSet(NS, "zz-other", int32(c.OtherReplicas))
 		o.UID = "other-set-uid"
 		o.Spec.Selector = set.Spec.Selector.DeepCopy()
 		o.Spec.Template.Labels = map[string]string{"app": set.Name}
@@ -319,6 +331,76 @@ func monC10(rep Rep, v *View, cacheBefore []sim.CachedObj) (interesting bool) {
 	return
 }
 
+// monOther judges a reconcile of the SECOND set (same selector, other name and UID): whatever it
+// writes must be its own - pods named zz-other-<ordinal> that it controls or may adopt, revisions it
+// controls or that nobody controls, its own status.
+func monOther(rep Rep, r *sim.Record, cacheBefore []sim.CachedObj) (wrote bool) {
+	const name, uid = "zz-other", "other-set-uid"
+	if r.Panic != nil {
+		rep.Violate("panic", "reconcile of the second set panicked: %v\n%s", r.Panic, r.Stack)
+	}
+	tr := func() string { return "\n[reconcile of the second set]\n" + r.Transcript() }
+	for _, a := range r.Actions {
+		if !a.IsWrite() {
+			continue
+		}
+		wrote = true
+		switch a.Resource {
+		case "statefulsets":
+			if a.Name != name || a.Verb != "update" || a.Subresource != "status" || a.GVR.Group != "apps.pingcap.com" {
+				rep.Violate("second-set/wrote-a-set", "%s%s", a, tr())
+			}
+		case "pods":
+			if a.Verb == "create" {
+				if _, ok := model.Canonical(name, a.Name); !ok {
+					if p, _ := a.Obj.(*corev1.Pod); p == nil || !okName(name, p.Name) {
+						rep.Violate("second-set/created-foreign-name", "%s%s", a, tr())
+					}
+				}
+				continue
+			}
+			before, _ := a.Before.(*corev1.Pod)
+			if before == nil {
+				continue // target vanished or never existed: nothing was touched
+			}
+			c := controllerOf(before.OwnerReferences)
+			switch {
+			case c != nil && string(c.UID) == uid:
+				// its own pod: may be released, updated or deleted
+			case c != nil:
+				rep.Violate("second-set/foreign-pod-"+a.Verb, "%s targets pod %s controlled by %s/%s (%s)%s", a, a.Name, c.Kind, c.Name, c.UID, tr())
+			default:
+				if _, ok := model.Canonical(name, a.Name); !ok || !isAdoptPatch(a, uid) || before.DeletionTimestamp != nil {
+					rep.Violate("second-set/orphan-pod-"+a.Verb, "%s targets the unowned pod %s, which is not an adoptable %s-<ordinal>%s", a, a.Name, name, tr())
+				}
+			}
+		case "controllerrevisions":
+			before, _ := a.Before.(*appsv1.ControllerRevision)
+			if before == nil || a.Verb == "create" {
+				continue
+			}
+			if c := controllerOf(before.OwnerReferences); c != nil && string(c.UID) != uid {
+				rep.Violate("second-set/foreign-revision-"+a.Verb, "%s targets revision %s controlled by %s/%s (%s)%s", a, a.Name, c.Kind, c.Name, c.UID, tr())
+			}
+		case "persistentvolumeclaims":
+			if a.Verb != "create" {
+				rep.Violate("second-set/claim-"+a.Verb, "%s%s", a, tr())
+			}
+		}
+	}
+	for _, co := range cacheBefore {
+		if !apiequality.Semantic.DeepEqual(co.Obj, co.Copy) {
+			rep.Violate("cache/object-mutated", "an object read from a cache was modified by the reconcile of the second set: before %v after %v%s", co.Copy, co.Obj, tr())
+		}
+	}
+	return
+}
+
+func okName(set, pod string) bool {
+	_, ok := model.Canonical(set, pod)
+	return ok
+}
+
 func labelsOf(p *corev1.Pod) labels.Set { return labels.Set(p.Labels) }
 
 func runC10(rep Rep, c C10Case) {
@@ -338,7 +420,31 @@ func runC10(rep Rep, c C10Case) {
 			}
 		}
 	}
+	otherAt := map[int]bool{}
+	for _, i := range c.OtherAt {
+		otherAt[i] = true
+	}
+	reconcileOther := func() {
+		if !c.Other || s.C.Set(NS, "zz-other") == nil {
+			return
+		}
+		if w.EventMode {
+			s.SyncCachesNotify()
+		} else {
+			s.C.RefreshAll()
+		}
+		cb := s.C.CacheSnapshot()
+		r := s.C.Reconcile(NS + "/zz-other")
+		s.Trace = append(s.Trace, func() string { return "[second set] " + strings.TrimRight(r.Transcript(), "\n") })
+		if monOther(rep, r, cb) {
+			nt = true
+			rep.Label("second-set-reconcile-wrote")
+		}
+	}
 	for i := range w.Ops {
+		if otherAt[i] {
+			reconcileOther()
+		}
 		cacheBefore = nil
 		if w.Ops[i].K == OpReconcile && w.Ops[i].InterAt == 0 {
 			// snapshot after the op's own refresh is applied: done inside by refreshing here first
@@ -358,6 +464,9 @@ func runC10(rep Rep, c C10Case) {
 			continue
 		}
 		s.Run(&w.Ops[i])
+	}
+	if otherAt[len(w.Ops)] {
+		reconcileOther()
 	}
 	rep.FP(worldFPAny(c))
 	if nt {
